@@ -367,6 +367,24 @@ def run_query_display(ctx):
                 m = re.search(r"s:'(.*)'$", S.val(tt["args"][1]))
                 if m:
                     lits.append(m.group(1))
+        if name in ("Inner", "Left"):
+            # the three operands are printed, in the order left, right, condition, with the join keyword between the first two and ON before the third
+            pos = {}
+            for b, tt in f.calls():
+                if b not in blks or re.search(r"Try>::branch$|FromResidual|::deref$|::as_ref$|::borrow$", cname(prog, tt)):
+                    continue
+                txt = " ".join(S.val(a) for a in tt["args"])
+                for k in (0, 1, 2):
+                    if re.search(r"p1@%s\.%d\b" % (name, k), txt):
+                        pos.setdefault(k, len(dom[b]))
+                m = re.search(r"s:'( (?:INNER|LEFT) JOIN | ON )'", txt)
+                if m:
+                    pos.setdefault(m.group(1).strip(), len(dom[b]))
+            kw = "INNER JOIN" if name == "Inner" else "LEFT JOIN"
+            seq = [pos.get(0), pos.get(kw), pos.get(1), pos.get("ON"), pos.get(2)]
+            ctx.check(None not in seq and seq == sorted(seq) and len(set(seq)) == 5, "DISPLAY-KW", "Join::%s prints left, keyword, right, ON, condition in this order" % name, str(seq),
+                      "Join::%s does not print its three operands in the order `left %s right ON condition` (positions %s; None = never printed): the text names a different "
+                      "query or does not parse" % (name, kw, dict(zip(("left", kw, "right", "ON", "condition"), seq))), f.loc(), fn=f.name, key="DISPLAY-KW|join-seq|%s" % name)
         if name == "Inner":
             ctx.check(" INNER JOIN " in lits and " LEFT JOIN " not in lits and " ON " in lits, "DISPLAY-KW", "Join::Inner keyword", str(lits),
                       "Join::Inner prints %s" % lits, f.loc(), fn=f.name)
